@@ -541,8 +541,25 @@ pub fn header_name_pool(thorough: bool) -> Vec<String> {
         names.push("~".repeat(len)); // non-shrinking (13 bits)
     }
     names.push("x-wt".into());
+    // spellings that differ from a static-table name only by letter case: they are different names to the codec
+    // (the table match must be exact), so they must come back exactly as given
+    let table_names: Vec<String> = names.iter().filter(|n| !n.starts_with(':') && n.chars().any(|c| c.is_ascii_lowercase())).cloned().collect();
+    for n in &table_names {
+        let mut cap = n.clone();
+        cap[..1].make_ascii_uppercase();
+        names.push(cap);
+        if thorough || n.len() <= 6 {
+            names.push(n.to_ascii_uppercase());
+            let mid = n.len() / 2;
+            let mut m = n.clone();
+            m[mid..mid + 1].make_ascii_uppercase();
+            if m != *n {
+                names.push(m);
+            }
+        }
+    }
+    names.push("X-Upper".into());
     if thorough {
-        names.push("X-Upper".into());
         names.push("".into());
         names.push("na\u{e9}me".into());
         for len in [2usize, 3, 9, 126, 127, 128, 134, 135, 136] {
